@@ -170,14 +170,14 @@ func apply[S ~[]E, E selectable](list S, submissionRequirement SubmissionRequire
 	if submissionRequirement.Min != nil && selectableCount < *submissionRequirement.Min {
 		return nil, errors.Join(ErrNoCredentials, fmt.Errorf("submission requirement (%s) has less matches (%d) than minimal required (%d)", submissionRequirement.Name, selectableCount, *submissionRequirement.Min))
 	}
-	// take max if both min and max are set
+	// take max if it is set, max is optional (a pick rule with only min, or without count/min/max, is valid)
 	index := 0
 	for _, member := range list {
 		if !member.empty() {
 			returnVCs = append(returnVCs, member.flatten()...)
 			index++
 		}
-		if index == *submissionRequirement.Max {
+		if submissionRequirement.Max != nil && index == *submissionRequirement.Max {
 			// we have enough to fulfill the max requirement, stop
 			break
 		}
